@@ -340,7 +340,14 @@ func (l *identLab) newCtx(sp identSpec, vars []byte) *resolve.Context {
 }
 
 // settle waits until no goroutine of the process can move on its own (sched.WaitQuiescent reads goroutine states).
-func settle(s *Sched) { s.WaitQuiescent() }
+// Under heavy CPU load one attempt may run into WaitQuiescent's own deadline: retry instead of reading a count early.
+func settle(s *Sched) {
+	for i := 0; i < 8; i++ {
+		if s.WaitQuiescent() {
+			return
+		}
+	}
+}
 
 // solo subscribes one spec alone and returns what reached Start: (rendered input, forwarded headers hash, trigger id).
 func (l *identLab) solo(sp identSpec) (input []byte, hh uint64, id uint64, err error) {
